@@ -26,6 +26,8 @@ directed = st.one_of(
     # an inode without a block map (fast symlink, device, fifo, socket, inline-data file) made invalid: mode / size / flags / blocks / xattr pointer
     st.tuples(st.just(corrupt.CLASSES.index('blockless')), st.integers(0, 500), st.sampled_from([i for i, f in enumerate(corrupt.INO_FIELDS) if f[0] in ('mode', 'size', 'flags', 'blocks', 'file_acl', 'links', 'iblock0', 'size_high')]),
               st.sampled_from(_DIR_KINDS + [corrupt.KINDS.index('bitflip'), corrupt.KINDS.index('random')]), st.integers(0, 1 << 16), st.just(True)),
+    # extent node headers: eh_entries / eh_max one up or one down (a node claiming more entries than it declares room for, or more room than the container has)
+    st.tuples(st.just(corrupt.CLASSES.index('extent')), st.integers(0, 500), st.just(0), st.sampled_from([corrupt.KINDS.index('dec'), corrupt.KINDS.index('inc')]), st.sampled_from([6, 18, 30, 9, 21, 33, 42, 45]), st.just(True)),
     # a directory that loses its first (often only) block
     st.tuples(st.just(corrupt.CLASSES.index('dirmap')), st.integers(0, 500), st.integers(0, 6), st.sampled_from(_DIR_KINDS), _VALS, st.just(True)),
     st.tuples(st.just(corrupt.CLASSES.index('eadup')), st.integers(0, 500), st.integers(0, 1), st.just(0), st.integers(0, 500), st.just(True)),
